@@ -121,7 +121,12 @@ class Rule_RF01(BaseRule):
         raw_references = list(iter_raw_references(table_reference, dialect.name))
         return [
             tuple(ref.part for ref in raw_references),
-            tuple(ref.segments[0].normalize(ref.part) for ref in raw_references),
+            tuple(
+                # An empty part (e.g. the middle of BigQuery's `project..table`)
+                # has no segments, and nothing to normalize.
+                ref.segments[0].normalize(ref.part) if ref.segments else ref.part
+                for ref in raw_references
+            ),
         ]
 
     def _analyze_table_references(
